@@ -349,11 +349,14 @@ func (session *ServerCommandSession) feedSdp(rawSdp []byte) error {
 func (session *ServerCommandSession) handleAuthorized(requestCtx nazahttp.HttpReqMsgCtx) (string, error) {
 	if requestCtx.Headers.Get(HeaderAuthorization) != "" {
 		authorization := requestCtx.Headers.Get(HeaderAuthorization)
-		session.auth.ParseAuthorization(authorization)
+		// every request is judged on the credentials it carries itself: without the reset an
+		// unparsable header was checked against the fields left by the previous request
+		session.auth = Auth{}
+		parseErr := session.auth.ParseAuthorization(authorization)
 
 		// 解析出的鉴权方式需要与配置的鉴权方式一致,防止鉴权降级
-		if session.auth.Typ == AuthTypeBasic && session.authConf.AuthMethod == 0 ||
-			session.auth.Typ == AuthTypeDigest && session.authConf.AuthMethod == 1 {
+		if parseErr == nil && (session.auth.Typ == AuthTypeBasic && session.authConf.AuthMethod == 0 ||
+			session.auth.Typ == AuthTypeDigest && session.authConf.AuthMethod == 1) {
 			if session.auth.CheckAuthorization(requestCtx.Method, session.authConf.UserName, session.authConf.PassWord) {
 				return "", nil
 			}
